@@ -1,4 +1,4 @@
 SPECIFICATION Spec
-CONSTANTS MaxOps = 4  MaxIng = 2  MaxArch = 0
+CONSTANTS MaxOps = 4  MaxIng = 2  MaxArch = 0  Variants = FALSE
 INVARIANTS W_Chain
 CHECK_DEADLOCK FALSE
